@@ -12,7 +12,7 @@ def _limits():
     resource.setrlimit(resource.RLIMIT_AS, (lim, lim))
 
 
-def run_model(lines, timeout=3600):
+def run_model(lines, timeout=240):
     """lines: list[str] -> list[str] (same length).  If the driver dies on a batch (memory limit, stack
     overflow), the batch is bisected and the offending line is answered `U model-crash`."""
     if not lines:
@@ -37,10 +37,11 @@ def run_model(lines, timeout=3600):
     # lines answered completely before the crash are kept; the rest is bisected
     rest = lines[len(good):]
     mid = max(1, len(rest) // 2)
-    return good + run_model(rest[:mid], min(timeout, 600)) + run_model(rest[mid:], min(timeout, 600))
+    t2 = max(15, min(timeout // 2, 60))
+    return good + run_model(rest[:mid], t2) + run_model(rest[mid:], t2)
 
 
-def run_model_parallel(lines, jobs=8, timeout=3600):
+def run_model_parallel(lines, jobs=8, timeout=240):
     if len(lines) < 2000 or jobs <= 1:
         return run_model(lines, timeout)
     from concurrent.futures import ThreadPoolExecutor
